@@ -74,6 +74,11 @@ def impl_case(case):
         if case.get("grid") == "square":
             # the user sets the interface's initial state from an INTEGER array of molecule counts (same values): S3_C07
             kw["Interface"].py_set_initial_state(np.array([int(m["x0"][s_]) for s_ in M.get_species_list()]))
+    # what the model hands out belongs to the caller: the list of names may be sorted, extended, emptied (seeded change S7_C07: the list was
+    # a cache shared with the data-frame labelling); the expected labels below come from the index map, not from that list
+    s2i_ = M.get_species2index(); true_order = [None] * len(s2i_)
+    for s_, i_ in s2i_.items(): true_order[i_] = s_
+    scribble = M.get_species_list(); scribble.sort(reverse=True); scribble.append("time")
     py_seed_random(case["seed"])
     try:
         res = py_simulate_model(T, **kw)
@@ -81,11 +86,11 @@ def impl_case(case):
         return {"outcome": "ValueError", "msg": str(e)[:200]}
     except BaseException as e:
         return {"outcome": "inside:" + type(e).__name__, "msg": str(e)[:200]}
-    out = {"outcome": "returned", "type": type(res).__name__, "species": M.get_species_list()}
+    out = {"outcome": "returned", "type": type(res).__name__, "species": true_order}
     if case["df"]:
         out["columns"] = [str(c) for c in res.columns]; out["nrows"] = int(len(res))
         out["time"] = [None if v is None or (isinstance(v, float) and math.isnan(v)) else float(v) for v in list(res["time"])] if "time" in res.columns else None
-        out["first"] = [float(v) for v in res.iloc[0].values[: len(M.get_species_list())]]
+        out["first"] = [float(v) for v in res.iloc[0].values[: len(true_order)]]
     else:
         arr = np.asarray(res.py_get_result()); tp = res.py_get_timepoints()
         out["nrows"] = int(arr.shape[0]); out["ncols"] = int(arr.shape[1])
